@@ -1,6 +1,6 @@
 """Array storage discipline (C03.b / C04.c for the contiguous container) and the ALIAS rule (C04.e)."""
 import re
-from .. import q
+from .. import q, fin
 from .. import containers as C
 from ..facts import AnalysisBroken
 
@@ -113,6 +113,8 @@ def array_rules(prog, chk, rid):
             # `*dest = *(++pos)`, `*pos = pos[1]`, `*pos = *(pos + 1)`: the successor is assigned into the vacated slot, inside a loop
             shifts = [s for s in q.stores(f) if (f.r(s.lhs).startswith("*") or f.r(s.lhs).endswith("[0]")) and s.rhs is not None and
                       re.search(r"\+\+|\[1\]|\+ 1\)", f.r(s.rhs)) and C.loop_blocks(f, s.node)]
+            if not shifts:
+                shifts = _successor_shifts(f)
             if shifts:
                 chk.ok(rid, f, "shift loop assigns the successor into the vacated slot", f.where(shifts[0].node), f.r(shifts[0].node)[:60], nontrivial=False)
             else:
@@ -250,3 +252,102 @@ def alias_rules(prog, chk, rid):
                         "(or duplicates elements when prepending)" % P["n"])
             else:
                 chk.ok(rid, f, "bulk insert does not walk a list it is growing", "%s:%s" % (f.file, f.line), "alias guard or no growing call in the walk")
+
+
+def _successor_shifts(f):
+    """stores `*D = *S` inside a loop where, by a symbolic walk of one iteration (pointer locals as base + constant offset relative to
+    their values at the loop head), S points one element behind D: the successor is assigned into the slot in front of it - whatever
+    the statements are spelled like (`T* const dest = pos; ++pos; *dest = *pos;`)"""
+    out = []
+
+    def addr(i, env):
+        """(base, offset) of a pointer-valued expression; applies ++/-- side effects to env"""
+        i = f.strip(i)
+        n = f.nodes[i]
+        k = n["k"]
+        if k == "DeclRefExpr":
+            nm = n["ref"]["n"]
+            return env.get(nm, (nm, 0))
+        if k in ("CStyleCastExpr", "ParenExpr", "ImplicitCastExpr", "CXXStaticCastExpr") and n["c"]:
+            return addr(n["c"][0], env)
+        if k == "UnaryOperator" and n.get("op") in ("++", "--") and n["c"]:
+            t = f.nodes[f.strip(n["c"][0])]
+            if t["k"] != "DeclRefExpr":
+                return None
+            nm = t["ref"]["n"]
+            b, o = env.get(nm, (nm, 0))
+            d = 1 if n["op"] == "++" else -1
+            env[nm] = (b, o + d)
+            return (b, o) if n.get("post") else (b, o + d)
+        if k == "BinaryOperator" and n.get("op") in ("+", "-"):
+            a = addr(n["c"][0], env)
+            c = fin.eval_expr(f, n["c"][1], {})
+            if a is None or c is None:
+                return None
+            return (a[0], a[1] + (c if n["op"] == "+" else -c))
+        if k == "UnaryOperator" and n.get("op") == "&" and n["c"]:
+            return cell(n["c"][0], env)
+        return None
+
+    def cell(i, env):
+        """(base, offset) of the element an lvalue/rvalue expression designates (`*p`, `p[k]`)"""
+        i = f.strip(i)
+        n = f.nodes[i]
+        if n["k"] == "UnaryOperator" and n.get("op") == "*" and n["c"]:
+            return addr(n["c"][0], env)
+        if n["k"] == "ArraySubscriptExpr":
+            a = addr(n["c"][0], env)
+            c = fin.eval_expr(f, n["c"][1], {})
+            if a is None or c is None:
+                return None
+            return (a[0], a[1] + c)
+        if n["k"] in ("CStyleCastExpr", "ParenExpr", "ImplicitCastExpr") and n["c"]:
+            return cell(n["c"][0], env)
+        return None
+    for st in q.stores(f):
+        lb = C.loop_blocks(f, st.node)
+        if not lb or st.op != "=" or st.rhs is None:
+            continue
+        heads = [x for x in lb if any(p_ not in lb for p_ in f.preds.get(x, []))]
+        if len(heads) != 1:
+            continue
+        # one iteration: from the head through the unique in-loop successors
+        env = {}
+        b = heads[0]
+        seen = set()
+        found = None
+        while b is not None and b not in seen:
+            seen.add(b)
+            blk = f.blocks[b]
+            tops = [e for e in blk["el"] if isinstance(e, int) and (f.up(e) is None or f.nodes[f.up(e)]["k"] in ("CompoundStmt", "ForStmt", "WhileStmt", "DoStmt", "IfStmt"))]
+            for e in tops:
+                ne = f.nodes[e]
+                if ne["k"] == "DeclStmt":
+                    for d in ne["decls"]:
+                        if d.get("init") is not None and "*" in (d.get("t") or ""):
+                            a = addr(d["init"], env)
+                            if a is not None:
+                                env[d["n"]] = a
+                elif e == st.node:
+                    # right side first (its side effects precede the store), then the left side
+                    r = cell(st.rhs, env)
+                    l = cell(st.lhs, env)
+                    if l is not None and r is not None and l[0] == r[0] and r[1] - l[1] == 1:
+                        found = st
+                elif ne["k"] == "BinaryOperator" and ne.get("op") == "=" and f.nodes[f.strip(ne["c"][0])]["k"] == "DeclRefExpr":
+                    a = addr(ne["c"][1], env)
+                    nm = f.nodes[f.strip(ne["c"][0])]["ref"]["n"]
+                    if a is not None:
+                        env[nm] = a
+                    else:
+                        env.pop(nm, None)
+                elif ne["k"] == "UnaryOperator" and ne.get("op") in ("++", "--"):
+                    addr(e, env)
+                elif ne["k"] == "BinaryOperator" and ne.get("op") == ",":
+                    for ch in ne["c"]:
+                        addr(ch, env) if f.nodes[f.strip(ch)]["k"] == "UnaryOperator" else None
+            nxt = [x for x in blk["succ"] if x in lb and x not in seen]
+            b = nxt[0] if len(nxt) == 1 else None
+        if found is not None:
+            out.append(found)
+    return out
